@@ -71,8 +71,40 @@ UriNewest ==
   \A u \in Uris : LET id == ByUri(frames, u) IN
     id # NoFrame => (\A j \in ActiveIds(frames) : frames[j + 1].uri = u => (frames[id + 1].st = "active" /\ j <= id))
 
-\* C25: accepted ticket sequence numbers strictly increase
-TicketMonotone == [][ticket'.seq >= ticket.seq /\ (last'.op = "ticket" /\ last'.res = "ok" => ticket'.seq > ticket.seq)]_mvars
+\* C25: accepted ticket sequence numbers strictly increase (unbind_memory starts over; open shows the file's copy)
+TicketMonotone == [][ /\ (ticket'.seq >= ticket.seq \/ last'.op \in {"unbind", "open", "open_ro"})
+                      /\ (last'.op \in {"ticket", "signed_ticket", "bind"} /\ last'.res = "ok" => ticket'.seq > ticket.seq) ]_mvars
+
+(* ------------- tickets, bindings and signed tickets (C25): their own small instance ------------- *)
+Mems == {1, 2}
+TkNext ==
+  \/ /\ exists = "no" /\ Create /\ Op([op |-> "create"])
+  \/ Commit(0, cpe) /\ Op([op |-> "commit"])
+  \/ OpenRW(0, cpe) /\ Op([op |-> "open"])
+  \/ OpenRO /\ Op([op |-> "open_ro"])
+  \/ Close(0, cpe) /\ Op([op |-> "close"])
+  \/ Abandon /\ Op([op |-> "abandon"])
+  \/ \E s \in 1..3 : ApplyTicket(s, 0) /\ Op([op |-> "ticket", seq |-> s])
+  \/ \E s \in 1..3, m \in Mems, a \in BOOLEAN : ApplySigned(s, 0, m, a) /\ Op([op |-> "signed_ticket", seq |-> s, mem |-> m, authentic |-> a])
+  \/ \E m \in Mems : BindOnly(m) /\ Op([op |-> "bind_only", mem |-> m])
+  \/ \E m \in Mems, s \in 1..3 : Bind(m, s, 0) /\ Op([op |-> "bind", mem |-> m, seq |-> s])
+  \/ Unbind /\ Op([op |-> "unbind"])
+TkSpec == MCInit /\ [][TkNext]_mvars
+
+\* C25: a signed ticket is accepted only when authentic, naming the bound memory, and newer; then the memory is verified
+SignedOnlyAuthentic ==
+  [][ (last'.op = "signed_ticket" /\ last'.res = "ok") =>
+        LET o == hist'[Len(hist')] IN
+        /\ o.authentic /\ ticket.mem # 0 /\ o.mem = ticket.mem /\ o.seq > ticket.seq
+        /\ ticket'.ver /\ ticket'.seq = o.seq /\ ticket'.mem = ticket.mem ]_mvars
+\* C25: the verified mark is only ever set by an accepted signed ticket, and cleared by an unsigned one
+VerifiedOnlyBySigned ==
+  [][ /\ (ticket'.ver /\ ~ticket.ver => last'.op \in {"signed_ticket", "open", "open_ro"})
+      /\ (last'.op \in {"ticket", "bind"} /\ last'.res = "ok" => ~ticket'.ver) ]_mvars
+\* verified implies bound, in the handle and in the file
+VerifiedIsBound == (ticket.ver => ticket.mem # 0) /\ (ticket.d.ver => ticket.d.mem # 0)
+\* C25 across reopen: what open shows is what the last TOC write stored
+ReopenShowsStored == [][ last'.op \in {"open", "open_ro"} => Live(ticket') = ticket.d ]_mvars
 
 \* C01: a rejected call changes nothing
 RejectedUnchanged == [][ (last'.res \notin {"ok"}) => UNCHANGED <<frames, pend, wal, ticket, hdl>> ]_mvars
